@@ -55,6 +55,7 @@ RECORDS: list[tuple[str, str, dict[str, Any], list[str]]] = [
 ]
 FLAG_NAMES = {'is_vitamin': 'is_vitamin', 'self.is_vitamin': 'is_vitamin', 'has_ambient': 'has_ambient'}
 PASSTHROUGH = {'int', 'float', 'round', 'bool', 'abs', 'coord', 'bytes', 'list', 'tuple'}
+STR_METHODS = {'casefold', 'lower', 'upper', 'strip', 'rstrip', 'lstrip', 'title', 'capitalize', 'swapcase'}
 XYZ = 'xyz'
 COMPONENTS = {'Vec': ['x', 'y', 'z'], 'Angle': ['pitch', 'yaw', 'roll']}     # positional constructor arguments of srctools.math
 CONST = '<constant>'
@@ -195,13 +196,18 @@ class Reader:
 
     def build(self) -> None:
         for n in self.live.nodes:
-            if isinstance(n, ast.Call) and isinstance(n.func, ast.Name) and n.func.id in self.classes and not n.keywords:
+            if isinstance(n, ast.Call) and isinstance(n.func, ast.Name) and n.func.id in self.classes:
                 if 'mro' in self.live.flags and n.func.id != self.live.flags['mro'][0] and n.func.id.startswith('DetailProp'):
                     raise TranslateError(f'{self.fn.name}: line {n.lineno}: {n.func.id}(...) is live for class {self.live.flags["mro"][0]}')
                 fields = self.classes[n.func.id]
                 if len(n.args) > len(fields):
                     raise TranslateError(f'{self.fn.name}: line {n.lineno}: {n.func.id}(...) has more arguments than fields')
-                for a, f in zip(n.args, fields):
+                for k in n.keywords:
+                    # attrs strips the leading underscore of a private attribute in __init__
+                    if k.arg is None or not any(k.arg == f or k.arg == f.lstrip('_') for f in fields):
+                        raise TranslateError(f'{self.fn.name}: line {n.lineno}: {n.func.id}(...) keyword `{k.arg}` is not a field')
+                by_kw = [(k.value, next(f for f in fields if k.arg == f or k.arg == f.lstrip('_'))) for k in n.keywords]
+                for a, f in list(zip(n.args, fields)) + by_kw:
                     if isinstance(a, ast.Call) and isinstance(a.func, ast.Name) and a.func.id in COMPONENTS and len(a.args) == 3:
                         for k, c in enumerate(a.args):
                             for v, r in names_with_roles(c):
@@ -362,9 +368,20 @@ class Writer:
                 self.assigns.setdefault(n.value.func.value.id, []).append((n.value.args[0], n))
         self.masked: list[str] = []
         self.aliases: set[str] = set()
+        # `tdat = info._info` names another record (labels are that record's attributes); `pos = cube.origin` names a value
+        # object of this record (labels are `origin.x`): decided by the annotation of the attribute
+        self.alias_prefix: dict[str, str] = {}
         for name, lst in self.assigns.items():
-            if any(isinstance(v, ast.Attribute) and isinstance(v.value, ast.Name) and v.value.id in self.recvars for v, _ in lst):
+            srcs = [v for v, _ in lst if isinstance(v, ast.Attribute) and isinstance(v.value, ast.Name) and v.value.id in self.recvars]
+            if srcs:
                 self.aliases.add(name)
+                prefixes = set()
+                for v in srcs:
+                    types = {c[v.attr].strip('\'"') for c in ann.values() if v.attr in c}
+                    types = {t[9:-1].strip('\'"') if t.startswith('Optional[') and t.endswith(']') else t for t in types}
+                    prefixes.add('' if not types or any(t in ann for t in types) else v.attr)
+                # mixed definitions keep the label of the attribute alone (as before)
+                self.alias_prefix[name] = prefixes.pop() if len(lst) == len(srcs) and len(prefixes) == 1 else ''
 
     def attr_chain(self, e: ast.AST) -> tuple[str, list[str]] | None:
         parts: list[str] = []
@@ -382,6 +399,8 @@ class Writer:
         ch = self.attr_chain(e)
         if ch is not None and ch[1] and (ch[0] in self.recvars or ch[0] in self.aliases):
             parts = [p for p in ch[1]]
+            if self.alias_prefix.get(ch[0]):
+                parts = [self.alias_prefix[ch[0]]] + parts
             if parts and parts[-1] == 'value':
                 parts = parts[:-1]
             if not parts:
@@ -426,6 +445,9 @@ class Writer:
                     return set().union(*[self.W(a, role or ':ref', seen) for a in e.args]) if e.args else set()
             if isinstance(e.func, ast.Attribute) and e.func.attr in ('pack',) or f == 'struct.pack':
                 return set()
+            if isinstance(e.func, ast.Attribute) and e.func.attr in STR_METHODS and not e.args and not e.keywords:
+                # name.casefold() and the like: still (a function of) that attribute
+                return self.W(e.func.value, role, seen)
             raise TranslateError(f'{self.fn.name}: line {e.lineno}: call not recognised in a packed value: {ast.unparse(e)[:60]}')
         if isinstance(e, ast.Subscript):
             if isinstance(e.value, ast.Name) and e.value.id not in self.recvars:
@@ -433,6 +455,12 @@ class Writer:
             return self.W(e.value, role, seen)
         if isinstance(e, (ast.ListComp, ast.GeneratorExp)):
             return set().union(*[self.W(g.iter, role, seen) for g in e.generators])
+        if isinstance(e, ast.Dict):
+            return set().union(*[self.W(x, role, seen) for x in list(e.keys) + list(e.values) if x is not None]) if e.keys else set()
+        if isinstance(e, ast.Compare) and len(e.ops) == 1 and isinstance(e.ops[0], (ast.In, ast.NotIn)) \
+                and isinstance(e.comparators[0], ast.Name) and e.comparators[0].id not in self.recvars:
+            # `key in table`: the same look-up as table[key]
+            return self.W(e.left, role or ':ref', seen)
         if isinstance(e, (ast.BinOp, ast.UnaryOp, ast.BoolOp, ast.Compare, ast.IfExp, ast.Tuple, ast.List)):
             if isinstance(e, ast.BinOp) and isinstance(e.op, (ast.BitAnd, ast.Mod)):
                 self.masked.append(f'{self.fn.name}:{e.lineno}: {ast.unparse(e)[:60]}')
